@@ -335,6 +335,19 @@ func runC14(r *Run) {
 					}
 				}
 				r.Check(ok, "C14.1", pr.typ+"."+f+"(converse)", w.Pos(df.Pos()), fmt.Sprintf("encoder writes it to wire field %s; decoder rebuilds it from %v", readBy, setKeys(wsrc)))
+				// and from nothing else: no other wire field may flow into this domain field
+				var foreign []string
+				for s := range wsrc {
+					if !strings.HasPrefix(s, "p0.") {
+						continue // the registry / other parameters
+					}
+					if s == "p0."+readBy || strings.HasPrefix(s, "p0."+readBy+".") || strings.HasPrefix("p0."+readBy, s+".") {
+						continue
+					}
+					foreign = append(foreign, s)
+				}
+				sort.Strings(foreign)
+				r.Check(len(foreign) == 0, "C14.1", pr.typ+"."+f+"(only-own-wire-field)", w.Pos(df.Pos()), fmt.Sprintf("decoded from wire field %s only; other wire fields flowing into it: %v", readBy, foreign))
 			}
 		}
 		// no wire field is filled from two different domain fields of different meaning (cross-wiring)
